@@ -2,11 +2,11 @@ SPECIFICATION Spec
 CONSTANTS
   MaxP = 4
   MaxHiP = 7
-  MaxInterior = 4
+  MaxInterior = 6
   KVals <- KValsT
   Eps <- Eps64
   MaxGenExtra = 24
-  SpanInterior = 8
+  SpanInterior = 12
 INVARIANT T_SpanUnique
 INVARIANT T_SpanAlgos
 INVARIANT T_BasisFuns
